@@ -22,23 +22,31 @@ RULE = ("kinds: sweep (2-4 samples, 2-5 treatments, D in 1..3, <= 12 observed ro
         "mvn (sample_mvn_from_precision with a stubbed generator against Model/Mvn.v).  Per step function the extracted model is "
         "restarted from the implementation's pre-block state.  Non-trivial: at least one observation.")
 THEOREMS = {
-    "C08_order": "the model's sweep order equals the call order read from the source of mcmc_step, is duplicate-free and visits all 12 blocks after the reconstruction",
-    "C08_gauss_block_W0": "W0[c] draw = N(m, v) with energy(W0[c]:=x) - energy(W0[c]:=0) = (x^2 - 2 m x)/v: the full conditional",
-    "C08_gauss_block_V0": "same for V0[m] (needs NoSelfCombo)",
-    "C08_gauss_block_W": "W[c] draw (Q, b): energy difference = x'Qx - 2 b'x",
-    "C08_gauss_block_V2": "same for V2[m] (needs NoSelfCombo)",
-    "C08_gauss_block_V1": "same for V1[m] (needs NoSelfCombo)",
-    "C08_prior_draw": "a block without data draws from its prior N(0, 1/precision)",
-    "C08_alpha_mean": "after _alpha_step alpha = mean of the transformed observations",
-    "C08_gamma_block_prec_obs": "prec draw: (shape-1, rate) = coefficients of ln(prec), prec in the log joint",
+    "C08_order": "the model's sweep order equals the call order read from the source of mcmc_step (Generated/Consts.v), is duplicate-free, contains every step function, starts with the reconstruction; mcmc_step is the composition in that order",
+    "C08_gauss_block_W0": "W0[c] draw N(m, v): energy(W0[c]:=x) - energy(W0[c]:=0) = (x^2 - 2 m x)/v, i.e. the full conditional (all data, exact cache)",
+    "C08_gauss_block_V0": "same for V0[m], under NoSelfCombo",
+    "C08_gauss_block_W": "W[c] draw (Q, b): energy difference = x'Qx - 2 b'x, i.e. N(Q^-1 b, Q^-1) is the full conditional",
+    "C08_gauss_block_V2": "same for V2[m], under NoSelfCombo",
+    "C08_gauss_block_V1": "same for V1[m], under NoSelfCombo",
+    "C08_gauss_generic": "the generic lemma: precision * sum_i ((rho_i - X_i.x)^2 - rho_i^2) + diagonal prior = quadratic form of (gramQ, xtr), any rows, any dimension",
+    "C08_prior_draw_scalar": "W0[c] / V0[m] without data draw N(0, 1/prior precision)",
+    "C08_prior_draw_W": "W[c] without data draws N(0, diag 1/tau); energy difference = sum tau_k x_k^2",
+    "C08_prior_draw_V2": "V2[m] without data draws from its prior",
+    "C08_prior_draw_V1": "V1[m] without data draws from its prior",
+    "C08_draw_stored": "each Gaussian block stores the drawn value in its slot",
+    "C08_alpha_mean": "after _alpha_step alpha = mean of the transformed observations (n > 0)",
+    "C08_gamma_block_prec_obs": "prec draw Gamma(a, r): a-1 and r are the coefficients of -2 ln t and 2 t in the energy (n > 0, exact cache), for every function ln",
     "C08_gamma_block_tau0": "tau0 draw likewise",
-    "C08_gamma_block_gam": "multiplicative-gamma-process draw of gam[d] likewise (tau = cumprod gam)",
-    "C08_clip_bounds": "every precision lies in [1/sqrt(1+n), 1e6] after its step (n > 0 for prec)",
-    "C08_prec_unclipped_without_data_refuted": "with no observation the prec draw is stored unclipped",
-    "C08_cache_invariant": "after every block Mu = reconstruct(state) under NoSelfCombo, for all draw results",
-    "C08_cache_refuted": "with a self-combination row the cache is stale after _V0_step",
-    "C08_export": "get_model_state predicts Mu on the training rows and carries prec",
-    "C08_mvn_mean_cov": "substitution result x satisfies L'(x - m) = z with (L L') m = b",
+    "C08_gamma_block_gam": "multiplicative gamma process: gam[d] draw likewise with tau = cumprod gam, for ln additive on positives, positive gam",
+    "C08_gamma_block_gam_is_the_draw": "the (shape, rate) of the previous theorem are literally the head draw of the gamma-process program",
+    "C08_clip_bounds": "tau0, prec (n > 0), eta0, phi0, eta2, phi2, eta1, phi1, tau lie in [1/sqrt(1+k), 1e6] after their step",
+    "C08_prec_unclipped_without_data_refuted": "REFUTED clause: with no observation _prec_obs_step stores the draw unclipped (witness 2e6 > 1e6)",
+    "C08_cache_invariant": "under NoSelfCombo, after any sequence of step functions and for all draw results Mu = reconstruct(state)",
+    "C08_cache_invariant_steps": "... in particular after any number of sweeps",
+    "C08_cache_invariant_blocks": "... and after every single W0/V0/W/V2/V1 block inside a step function",
+    "C08_cache_refuted": "REFUTED without NoSelfCombo: a row with the same treatment in both columns leaves Mu stale after _V0_step (witness: Mu = 1, recomputation = 2)",
+    "C08_export": "get_model_state predicts reconstruct(state) (= Mu when the cache is exact) on the training rows and carries prec",
+    "C08_mvn_mean_cov": "L lower triangular, non-zero diagonal, L L' = Q: Q m = b and L'(x - m) = z for the substitution results",
 }
 ASSUMPTIONS = [
     "np.random.normal / np.random.gamma / Generator.normal sample the distributions their arguments name (the theorems are about the arguments)",
@@ -102,7 +110,7 @@ def gen(rng, tier):
         n_s, n_t, D = rng.randint(2, 4), rng.randint(2, 5), rng.choice([1, 2, 2, 3])
         nrows = 0 if i % 37 == 5 else rng.randint(1, 12)
         yield dict(kind="sweep", D=D, n_s=n_s, n_t=n_t, rows=_gen_rows(rng, n_s, n_t, nrows, False) if nrows else [],
-                   steps=rng.choice([1, 1, 2, 3]), dseed=rng.randrange(1 << 30), fail=rng.random() < 0.25,
+                   steps=rng.choice([1, 2, 2, 3]), dseed=rng.randrange(1 << 30), fail=rng.random() < 0.25,
                    wide=rng.random() < 0.3)
     for i in range(n_self):
         n_s, n_t, D = rng.randint(2, 3), rng.randint(2, 4), rng.choice([1, 2])
@@ -637,8 +645,9 @@ def cmp_state(ms, S, D, what):
     return None
 
 
-def run_sweep(desc):
-    model, train, w, steps, exports, problems = run_sampler(desc)
+def analyse(desc, mutate=None):
+    """run the instrumented sampler and evaluate every property predicate on it"""
+    model, train, w, steps, exports, problems = run_sampler(desc, mutate)
     dat = impl_data(w)
     D = w.D
     cfgw = [D, w.n_drugdoses, w.n_clines, frac(w.a0), frac(w.b0), frac(w.min_Mu), frac(w.max_Mu)]
@@ -672,6 +681,12 @@ def run_sweep(desc):
             [list(map(int, w.dd1_idxs.get(m, []))) for m in range(-1, w.n_drugdoses)],
             [list(map(int, w.dd2_idxs.get(m, []))) for m in range(-1, w.n_drugdoses)])
     expect.append(("final", own, idxs, exports[-1]))
+    return w, dat, steps, ck, wires, expect, final, dataw
+
+
+def run_sweep(desc, mutate=None):
+    w, dat, steps, ck, wires, expect, final, dataw = analyse(desc, mutate)
+    D = w.D
 
     def cmpf(mout, _impl):
         if isinstance(mout, str):
@@ -782,3 +797,60 @@ def signature(desc, res):
             return "sweep:" + "+".join(tags)
         return "sweep:correspondence"
     return desc.get("kind")
+
+
+# --------------------------------------------------------------------------- whole-run checks
+
+_MUT_DESC = dict(kind="sweep", D=2, n_s=2, n_t=3, steps=2, dseed=7, fail=False, wide=False,
+                 rows=[[0, 0, 1, 0.25], [0, 0, -1, 0.5], [1, -1, 1, 0.75], [1, 2, 1, 0.375], [0, 1, 2, 0.625], [1, 0, 2, 0.125]])
+
+
+def _mutant(method, old, new):
+    """a copy of a step function of the implementation with one textual change, bound to the instance"""
+    import types
+    from batchie.models import sparse_combo
+
+    src = textwrap.dedent(inspect.getsource(getattr(sparse_combo.LegacySparseDrugComboImpl, method)))
+    if old not in src:
+        return None
+    ns = {}
+    exec(compile(src.replace(old, new, 1), "<mutant of %s>" % method, "exec"), vars(sparse_combo), ns)
+
+    def apply(w):
+        setattr(w, method, types.MethodType(ns[method], w))
+    return apply
+
+
+def extra(tier):
+    out = []
+    a = np.zeros(3)
+    a[np.array([0, 0, 1])] += np.array([1.0, 2.0, 3.0])
+    out.append(("numpy fancy-index += keeps the last write for a repeated index", a.tolist() == [2.0, 3.0, 0.0], a.tolist()))
+    # the Coq refutation witness (Proofs/C08Cache.v wit_data / wit_state, draw 1) on the real class
+    from batchie.models.sparse_combo import LegacySparseDrugComboImpl
+    w = LegacySparseDrugComboImpl(n_dims=1, n_drugdoses=1, n_clines=1)
+    w._update(y=np.float32(0.0), cl=0, dd1=0, dd2=0)
+    w._reconstruct_Mu(clip=False)
+    with mock.patch("numpy.random.normal", lambda *a, **k: 1.0):
+        w._V0_step()
+    cached, recomputed = float(w.Mu[0]), float(w.predict(np.array([0]), np.array([0]), np.array([0]))[0])
+    out.append(("C08_cache_refuted witness replayed on the implementation (informational)", True,
+                "after _V0_step: cached Mu = %r, recomputed = %r (%s)" % (cached, recomputed,
+                "reproduces the stale cache" if (cached, recomputed) == (1.0, 2.0) else "does NOT reproduce: the implementation changed")))
+    # detection self-test: realistic defects injected into copies of the step functions must be caught
+    muts = [("_V0_step", "- self.Mu[idx1] + old_value", "- self.Mu[idx1] - old_value", "residual sign in _V0_step"),
+            ("_W_step", "mu_part = (Xt @ resid) * prec", "mu_part = (Xt @ resid)", "dropped precision factor in _W_step"),
+            ("_V1_step", "self.Mu[idx] += X @ self.V1[m] - old_contrib", "pass", "_V1_step does not update the cache"),
+            ("_V2_step", "Q[dix] += self.phi2[m] * self.eta2", "Q[dix] += self.phi2[m]", "dropped eta2 in the V2 prior precision"),
+            ("_prec_W0_step", "an = self.a0 + 0.5 * self.n_clines", "an = self.a0 + self.n_clines", "wrong shape in _prec_W0_step"),
+            ("mcmc_step", "self._V1_step()", "pass", "_V1_step omitted from the sweep")]
+    for method, old, new, what in muts:
+        mu = _mutant(method, old, new)
+        if mu is None:
+            out.append(("detection self-test: " + what, True, "skipped: source pattern not present any more"))
+            continue
+        _, _, _, ck, _, _, _, _ = analyse(_MUT_DESC, mu)
+        out.append(("detection self-test: " + what, bool(ck.fails), ck.fails[0][1][:300] if ck.fails else "NOT detected"))
+    _, _, _, ck, _, _, _, _ = analyse(_MUT_DESC)
+    out.append(("detection self-test baseline: unmodified implementation passes on the same case", not ck.fails, str(ck.fails[:1])))
+    return out
